@@ -124,12 +124,25 @@ type xObs struct {
 	sigs [][]byte
 }
 
-func takeXObs(k *xmss.XMSS, ep *Episode) (xo xObs, oc outcome) {
+// takeXObs reads the identity getters and takes the signatures; signFirst
+// reverses the order (a getter with a side effect on the key shows as a
+// difference between a key that exported before signing and one that did not).
+func takeXObs(k *xmss.XMSS, ep *Episode, signFirst bool) (xo xObs, oc outcome) {
 	var oc2 outcome
-	xo.o, oc2 = observe(k, true)
-	if oc2.panicked {
-		return xo, oc2
+	if !signFirst {
+		xo.o, oc2 = observe(k, true)
+		if oc2.panicked {
+			return xo, oc2
+		}
 	}
+	defer func() {
+		if signFirst && !oc.panicked {
+			xo.o, oc2 = observe(k, true)
+			if oc2.panicked {
+				oc = oc2
+			}
+		}
+	}()
 	oc = guard(func() {
 		if ep.AtIndex > 0 {
 			k.SetIndex(ep.AtIndex)
@@ -199,7 +212,7 @@ func RunWalletXMSS(ep *Episode) *Result {
 			return res
 		}
 	}
-	before, oc := takeXObs(orig, ep)
+	before, oc := takeXObs(orig, ep, false)
 	if oc.panicked {
 		w.add("observe-failed", cfg, "original key: "+oc.pval)
 		return res
@@ -269,7 +282,7 @@ func RunWalletXMSS(ep *Episode) *Result {
 			w.add("restore-failed", cfg+",form="+form, "rebuilding from the exported secret failed: "+oc.pval)
 			continue
 		}
-		after, oc := takeXObs(k, ep)
+		after, oc := takeXObs(k, ep, fi%2 == 1)
 		if oc.panicked {
 			w.add("restore-failed", cfg+",form="+form, "restored key unusable: "+oc.pval)
 			continue
@@ -479,6 +492,12 @@ func entropyPlan(r *core.Rand, mode string, k int) *EntropyPlan {
 	switch mode {
 	case "clean":
 	case "short":
+		if r.Chance(0.15) { // 48 one-byte reads
+			for i := 0; i < 48; i++ {
+				p.Chunks = append(p.Chunks, 1)
+			}
+			break
+		}
 		for tot := 0; tot < 48; {
 			c := r.Range(1, 47)
 			if r.Chance(0.15) {
